@@ -8,6 +8,7 @@ def const_stack(rng):
     """a stack with `=k` at a random layer and depth, later writers of every kind, optional
     enclosing replacement (null / override of the enclosing mapping)"""
     depth = rng.randint(0, 2)
+    kn = '' if rng.random() < 0.08 else 'k'      # also: the constant key with the empty name, spelled `=`
     nl = rng.randint(2, 5)
     ci = rng.randint(0, nl - 2)
     path = ['p%d' % d for d in range(depth)]
@@ -20,25 +21,25 @@ def const_stack(rng):
     layers = []
     for i in range(nl):
         if i < ci:
-            inner = ('m', [(S(rng.choice(['k', 'k', 'j'])), V.plain_value(rng, 1))])
+            inner = ('m', [(S(rng.choice([kn, kn, 'j'])), V.plain_value(rng, 1))])
         elif i == ci:
-            inner = ('m', [(S('=k'), V.plain_value(rng, 1)), (S('j'), I(i))])
+            inner = ('m', [(S('=' + kn), V.plain_value(rng, 1)), (S('j'), I(i))])
         else:
             r = rng.random()
             if r < 0.2:
-                inner = ('m', [(S('k'), V.plain_value(rng, 1))])
+                inner = ('m', [(S(kn), V.plain_value(rng, 1))])
             elif r < 0.35:
-                inner = ('m', [(S('~k'), V.plain_value(rng, 1))])
+                inner = ('m', [(S('~' + kn), V.plain_value(rng, 1))])
             elif r < 0.45:
-                inner = ('m', [(S('=k'), V.plain_value(rng, 1))])
+                inner = ('m', [(S('=' + kn), V.plain_value(rng, 1))])
             elif r < 0.55:
-                inner = ('m', [(S('k'), N)])
+                inner = ('m', [(S(kn), N)])
             elif r < 0.75:
                 inner = ('m', [(S('j'), V.scalar(rng))])          # other key: unaffected
             elif r < 0.85 and depth > 0:
                 # replace an enclosing mapping as a whole
                 d = rng.randint(0, depth - 1)
-                v = N if rng.random() < 0.5 else ('m', [(S('k'), I(99))])
+                v = N if rng.random() < 0.5 else ('m', [(S(kn), I(99))])
                 key = path[d] if v == N else '~' + path[d]
                 for seg in reversed(path[:d]):
                     v = ('m', [(S(seg), v)])
